@@ -183,6 +183,17 @@ class BF:
                 bits |= 1 << i
         return BF(kept, bits)
 
+    def compose(self, mapping: T.Dict[str, "BF"]) -> "BF":
+        """Substitute a boolean function for each atom named in mapping (Shannon expansion, atom by atom)."""
+        out = self
+        for i, (name, f) in enumerate(mapping.items()):
+            if name not in out.atoms:
+                continue
+            hi = out.restrict(name, True).project([a for a in out.atoms if a != name])
+            lo = out.restrict(name, False).project([a for a in out.atoms if a != name])
+            out = (f & hi) | (~f & lo)
+        return out
+
     def rename(self, mapping: T.Dict[str, str]) -> "BF":
         new = [mapping.get(a, a) for a in self.atoms]
         if len(set(new)) != len(new):
